@@ -31,7 +31,7 @@ static void init_sigs(void) {
 }
 
 /* ---- stream generation ------------------------------------------------------------------------------- */
-#define MAXS 400
+#define MAXS 760
 typedef struct { unsigned char b[MAXS]; size_t n; unsigned char flush_before[MAXS + 1]; int has_nl_in_string, has_block_nl, has_flush, mutated; } stream_t;
 
 static void put(stream_t * s, const void * d, size_t n) { if (s->n + n <= MAXS - 8) { memcpy(s->b + s->n, d, n); s->n += n; } }
@@ -74,7 +74,7 @@ static void gen_unit(vh_rng_t * rng, stream_t * s) {
     }
 }
 static void gen_stream(vh_rng_t * rng, stream_t * s) {
-    int nm = 1 + (int) vh_below(rng, 8), m, u;
+    int nm = vh_chance(rng, 1, 8) ? 9 + (int) vh_below(rng, 24) : 1 + (int) vh_below(rng, 8), m, u; /* some streams leave more than 256 and 512 bytes behind a unit */
     memset(s, 0, sizeof *s);
     for (m = 0; m < nm && s->n < MAXS - 120; m++) {
         int nu = 1 + (int) vh_below(rng, 3);
@@ -246,6 +246,8 @@ static void p0_run(uint64_t idx, vh_rng_t * rng) {
     if (s.has_block_nl) vh_count("stream.terminator_inside_block", 1);
     if (s.has_flush) vh_count("stream.with_flush_calls", 1);
     if (s.mutated) vh_count("stream.mutated", 1);
+    if (s.n > 258) vh_count("stream.longer_than_258_bytes", 1);
+    if (s.n > 514) vh_count("stream.longer_than_514_bytes", 1);
     if (ref.rem.len) vh_count("stream.leaves_remainder", 1);
     if (ref.out.len) vh_count("stream.produces_output", 1);
     if (strstr(vh_buf_cstr(&ref.log), "E -")) vh_count("stream.raises_errors", 1);
@@ -257,6 +259,6 @@ int main(int argc, char ** argv) {
     static const vh_phase_t phases[] = { { "streams", p0_count, p0_run } };
     vh_require("history.pending_units_then_overrun"); vh_require("seg.all_at_once"); vh_require("seg.single_split"); vh_require("seg.random_multiway"); vh_require("stream.terminator_inside_block");
     vh_require("stream.terminator_inside_string"); vh_require("stream.with_flush_calls"); vh_require("stream.leaves_remainder"); vh_require("stream.produces_output");
-    vh_require("stream.raises_errors"); vh_require("family.tight_buffer");
+    vh_require("stream.raises_errors"); vh_require("family.tight_buffer"); vh_require("stream.longer_than_258_bytes"); vh_require("stream.longer_than_514_bytes");
     return vh_main(argc, argv, "C08", phases, 1);
 }
